@@ -122,6 +122,10 @@
 (define (iset-adjoin-node! a b)
   (cond
    ((iset-empty? a)
+    ;; nothing but empty nodes below a: drop them, their ranges need
+    ;; not be on the proper side of b
+    (iset-left-set! a #f)
+    (iset-right-set! a #f)
     (iset-start-set! a (iset-start b))
     (iset-end-set! a (iset-end b))
     (iset-bits-set! a (iset-bits b)))
@@ -186,19 +190,20 @@
              (iset-node-extract node (+ end 1) (iset-end node)))))
 
 (define (iset-node-extract node start end)
-  (cond
-   ((iset-bits node)
-    => (lambda (node-bits)
-         (let* ((bits
-                 (bitwise-and
-                  (arithmetic-shift node-bits (- (iset-start node) start))
-                  (range->bits start end)))
-                (new-end (min end (+ start (integer-length bits)))))
-           (%make-iset start new-end bits #f #f))))
-   (else
-    (%make-iset (max start (iset-start node))
-                (min end (iset-end node))
-                #f #f #f))))
+  (let ((start (max start (iset-start node)))
+        (end (min end (iset-end node))))
+    (cond
+     ((iset-bits node)
+      => (lambda (node-bits)
+           (let* ((bits
+                   (bitwise-and
+                    (arithmetic-shift node-bits (- (iset-start node) start))
+                    (range->bits start end)))
+                  ;; trim the range to the highest bit set
+                  (new-end (max start (+ start (integer-length bits) -1))))
+             (%make-iset start new-end bits #f #f))))
+     (else
+      (%make-iset start end #f #f #f)))))
 
 ;;> Returns an iset with the integers in \var{ls} added to \var{iset},
 ;;> possibly mutating \var{iset} in the process.
